@@ -26,6 +26,14 @@ inductive Eff
   | rootsErase
   /-- `doc.nodes = nodes` -/
   | rootsSet
+  /-- `doc.nodes = append(doc.nodes, node)` -/
+  | rootsAppend
+  /-- `pointer := node.Pointer()` (a local read) -/
+  | readPointer
+  /-- `doc.pointerCache.Store(pointer, node)` -/
+  | storePointer
+  /-- `if !IsNil(node) {`: what follows runs (the model never hands over nil) -/
+  | nilCheck
   /-- `resetNodeCache()` (or the plain assignment it replaced) -/
   | resetNodeCache
   /-- `doc.families = nil` -/
@@ -56,6 +64,10 @@ inductive Guard
   | deleted
   /-- inside `if node.document != nil { … }` (a FamilyNode always has a document: `needsDocument`) -/
   | hasDocument
+  /-- inside `if pointer != "" { … }` (Document.addPointerToCache) -/
+  | hasPointer
+  /-- under `switch node.Tag() { case TagFamily: … }` (Document.addPointerToCache) -/
+  | isFamily
 deriving Repr, DecidableEq
 
 structure GEff where
@@ -88,6 +100,9 @@ def guardHolds (g : Guard) (r : Run) : Bool :=
   | .always => true
   | .deleted => r.deleted
   | .hasDocument => true
+  -- guards about the record handed to `Document.AddNode`: not part of the child-list / root-list
+  -- mutators this interpreter is for (see `runDocAdd`)
+  | .hasPointer | .isFamily => false
 
 /-- one statement that is not a delegation -/
 def runBase (x : Ctx) (ge : GEff) (r : Run) : Run :=
@@ -106,6 +121,7 @@ def runBase (x : Ctx) (ge : GEff) (r : Run) : Run :=
     | .bumpLinks => { r with s := bumpFamilyLinks r.s }
     | .resetOwnFamily => { r with s := resetFamily x.n r.s }
     | .resetUniqueIDs | .lock | .unlock | .ret | .super _ | .bad _ => r
+    | .rootsAppend | .readPointer | .storePointer | .nilCheck => r
   else r
 
 /-- one statement; `sup m` = the statements of `SimpleNode.m` -/
@@ -117,6 +133,35 @@ def runOne (sup : Meth → List GEff) (x : Ctx) (r : Run) (ge : GEff) : Run :=
 /-- a whole body, in source order -/
 def runBody (sup : Meth → List GEff) (x : Ctx) (l : List GEff) (s : St) : St :=
   (l.foldl (runOne sup x) ⟨s, false⟩).s
+
+/-! ## `Document.AddNode(record)`: the statements of its body (helper `addPointerToCache` inlined) -/
+
+/-- the guards of `Document.AddNode`, about the record `c` being added -/
+def docAddGuard (c : Id) (g : Guard) (s : St) : Bool :=
+  match g with
+  | .always => true
+  | .hasPointer => !((abs s).ptr c).isEmpty
+  | .isFamily => (abs s).tag c == tFAM
+  | .deleted | .hasDocument => false
+
+/-- one statement of `Document.AddNode` on the model state, `c` = the (already allocated) record -/
+def docAddStmt (c : Id) (ge : GEff) (s : St) : St :=
+  if docAddGuard c ge.g s then
+    match ge.e with
+    | .rootsAppend => { s with roots := s.roots ++ [c] }
+    | .storePointer => { s with ptrIdx := ((abs s).ptr c, c) :: s.ptrIdx }
+    | .clearFamilies => { s with dfams := none }
+    | .bumpLinks => bumpFamilyLinks s
+    | _ => s
+  else s
+
+/-- the fragment `Document.AddNode` may use -/
+def docAddFragment (l : List GEff) : Bool :=
+  l.all fun ge => match ge.e with
+    | .rootsAppend | .storePointer | .clearFamilies | .bumpLinks | .lock | .unlock | .readPointer | .nilCheck => true
+    | _ => false
+
+def runDocAdd (c : Id) (l : List GEff) (s : St) : St := l.foldl (fun s ge => docAddStmt c ge s) s
 
 /-! ## `DeleteNodesWithTag`: a loop over the children that calls `DeleteNode` -/
 
